@@ -315,7 +315,7 @@ def paint_uses(dump):
     uses = []
 
     def ref(kind, o):
-        key = (kind, o['ptr'])
+        key = (kind, o['ptr'], o.get('id', ''))
         refs[key] = refs.get(key, 0) + 1
         return key
 
@@ -398,9 +398,26 @@ def nested_trees(dump):
     return out
 
 
-def in_class_shared_def(dump, unresolved_ids):
-    """True iff every use of every unresolved paint lies inside the content of a pattern / mask / feImage filter
-    whose definition object has at least two references (so Arc::get_mut refused the descent)."""
+def source_def_user_space(doc_text, kind, did):
+    """Is the element `did` of the document a pattern / mask / filter written entirely in user-space units?  (Only such a
+    definition is converted once and shared by all its users; objectBoundingBox ones are converted per user.)"""
+    if not doc_text or not did:
+        return False
+    m = re.search(r"<(pattern|mask|filter)\b([^>]*\bid=\"%s\"[^>]*)>" % re.escape(did), doc_text)
+    if not m or m.group(1) != kind:
+        return False
+    a = m.group(2)
+    need, forbid = {'pattern': ('patternUnits', 'patternContentUnits'), 'mask': ('maskUnits', 'maskContentUnits'),
+                    'filter': ('filterUnits', 'primitiveUnits')}[kind]
+    return (re.search(r'\b%s="userSpaceOnUse"' % need, a) is not None
+            and re.search(r'\b%s="objectBoundingBox"' % forbid, a) is None)
+
+
+def in_class_shared_def(dump, unresolved_ids, doc_text):
+    """Known class `shared-def-nested-obb` [F25], exactly the inputs that fail on HEAD: every use of every unresolved
+    paint lies inside the content of a pattern / mask / feImage filter that (a) has at least two references in the
+    tree (so Arc::get_mut refused the descent) and (b) is written in user-space units in the document (so it was never
+    cloned per user).  A single-reference definition or an objectBoundingBox one that leaves units behind is not in the class."""
     if not unresolved_ids:
         return False
     found = set()
@@ -409,7 +426,7 @@ def in_class_shared_def(dump, unresolved_ids):
         for pid, k, stack in uses:
             if pid in unresolved_ids:
                 found.add(pid)
-                if not any(refs.get(key, 0) >= 2 for key in stack):
+                if not any(refs.get(key, 0) >= 2 and source_def_user_space(doc_text, key[0], key[2]) for key in stack):
                     return False
     return found == set(unresolved_ids)
 
@@ -799,7 +816,9 @@ EXTREMES = ['1e300', '-1e300', '1e38', '3.5e38', '-3.5e38', '1e-46', '0', '-0', 
             '1e30', '2e19']
 TS_EXTREMES = ['scale(1e20)', 'scale(1e30)', 'translate(1e38 1e38)', 'matrix(1e30 0 0 1e30 1e38 1e38)', 'rotate(1e300)',
                'scale(1e-30)', 'scale(0)', 'skewX(89.9999999)', 'matrix(1e38 1e38 1e38 1e38 0 0)', 'scale(1e300)',
-               'translate(3e38) scale(2)', 'scale(-1e25 1e25)']
+               'translate(3e38) scale(2)', 'scale(-1e25 1e25)',
+               # a regular linear part with a translation that does not fit into f32: must be rejected at parse time
+               'translate(1e39 0)', 'translate(5 -1e39)', 'matrix(1 0 0 1 0 1e300)', 'rotate(30) translate(1e39 1)', 'matrix(2 0 0 2 -1e39 0)']
 NUM_ATTR_RE = re.compile(
     r'\b(x|y|width|height|r|rx|ry|cx|cy|fx|fy|x1|y1|x2|y2|offset|stroke-width|stroke-miterlimit|stroke-dasharray|'
     r'stroke-dashoffset|font-size|stdDeviation|dx|dy|scale|k1|k2|k3|k4|radius|baseFrequency|letter-spacing|word-spacing|'
@@ -835,12 +854,37 @@ def gen_numeric_doc(rng):
     """hand-made templates exercising every clause with extreme magnitudes"""
     E = lambda: rng.choice(EXTREMES)
     T = lambda: rng.choice(TS_EXTREMES)
-    k = rng.below(14)
+    k = rng.below(17)
     FS = lambda: rng.choice(['-4', '0', '1e30', '3e38', '12', '-1e30', '1e-30'])
     DU = lambda: rng.choice(EXTREMES + ['2em', '1ex', '3e38in', '-1em', '2e38em', '3e38mm', '1em'])
     if k == 0:
         return ('<svg %s width="100" height="100"><g transform="%s"><g transform="%s"><rect width="%s" height="10" stroke="red" '
                 'stroke-width="%s" stroke-miterlimit="%s" stroke-dasharray="%s %s"/></g></g></svg>' % (NS, T(), T(), E(), E(), E(), E(), E()))
+    if k in (14, 15, 16):
+        # objectBoundingBox paint nested in the content of a definition: single-reference and objectBoundingBox
+        # definitions must come out resolved; only a SHARED USER-SPACE definition is the known class [F25]
+        grad = '<linearGradient id="g"><stop offset="0" stop-color="red"/><stop offset="1" stop-color="blue"/></linearGradient>'
+        n = 1 + rng.below(3)
+        xs = [5 + 60 * i for i in range(n)]
+        if k == 14:
+            units = rng.choice(['', ' filterUnits="userSpaceOnUse" x="0" y="0" width="200" height="100"'])
+            d = ('<rect id="r" width="40" height="30" fill="url(#g)" stroke="url(#g)"/>'
+                 '<filter id="f"%s><feImage xlink:href="#r"/></filter>' % units)
+            users = ''.join('<rect x="%d" y="10" width="50" height="%d" filter="url(#f)"/>' % (x, 40 + 7 * i) for i, x in enumerate(xs))
+        elif k == 15:
+            units = rng.choice(['', ' patternUnits="objectBoundingBox"', ' patternUnits="userSpaceOnUse"',
+                                ' patternContentUnits="objectBoundingBox"'])
+            cw = '0.2' if 'patternContentUnits' in units else '8'
+            wh = ' width="16" height="12"' if 'userSpaceOnUse' in units else ' width="0.25" height="0.25"'
+            d = '<pattern id="f"%s%s><rect width="%s" height="%s" fill="url(#g)"/></pattern>' % (units, wh, cw, cw)
+            users = ''.join('<rect x="%d" y="10" width="50" height="%d" fill="url(#f)"/>' % (x, 40 + 7 * i) for i, x in enumerate(xs))
+        else:
+            units = rng.choice(['', ' maskUnits="userSpaceOnUse" x="0" y="0" width="200" height="100"',
+                                ' maskContentUnits="objectBoundingBox"'])
+            cw = '0.8' if 'maskContentUnits' in units else '150'
+            d = '<mask id="f"%s><rect width="%s" height="%s" fill="url(#g)"/></mask>' % (units, cw, cw)
+            users = ''.join('<rect x="%d" y="10" width="50" height="%d" mask="url(#f)"/>' % (x, 40 + 7 * i) for i, x in enumerate(xs))
+        return '<svg %s width="200" height="100"><defs>%s%s</defs>%s</svg>' % (NS, grad, d, users)
     if k == 12:
         # font-relative units under negative / zero / huge font sizes; values that overflow only after the unit factor
         return ('<svg %s width="100" height="100" font-size="%s"><path d="M10 10 L90 20 L30 80" fill="none" stroke="red" font-size="%s" '
@@ -1073,7 +1117,7 @@ def judge_tree(ctx, label, doc_text, res, why, replay):
     """Apply the verdict for one parsed document: validity codes from Coq, written-form scan, units."""
     dump = res['dump']
     codes = sorted(set(why))
-    if codes and doc_text is None and replay.get('payload', '').split('\t')[-1].startswith('@'):
+    if doc_text is None and replay.get('payload', '').split('\t')[-1].startswith('@'):
         try:
             doc_text = open(replay['payload'].split('\t')[-1][1:], encoding='utf-8', errors='replace').read()
         except OSError:
@@ -1098,7 +1142,7 @@ def judge_tree(ctx, label, doc_text, res, why, replay):
         ctx.violation("written form of %s carries an unresolved value: %s" % (label, other[:3]), dict(replay, problems=other[:10]))
     if units or res['dbg_obb']:
         ids = set(p[2] for p in units)
-        if ids and in_class_shared_def(dump, ids):
+        if ids and in_class_shared_def(dump, ids, doc_text):
             ctx.known_or_violation('shared-def-nested-obb',
                                    "objectBoundingBox units remain in %s: %s" % (label, units[:3]),
                                    dict(replay, problems=units[:10], dbg_obb=res['dbg_obb']))
